@@ -14,7 +14,7 @@ CLAIM = {
              "linear normal form equals the Sower's (id <= remainder) -- for all N, batch counts and subsets of finished batches; (R2) the 'no placeholder' marker tested by the Reaper is the very object "
              "returned by the clean-up decision function and the Reaper's default, and is not a value the placeholder constructor can return (None cannot mean both); (R3) the readiness gate completes before "
              "any Reaper is built and before any file effect; (R4) the decision functions evaluated over their complete input space match the documented table; (R5) for every flag valuation with "
-             "allow_incomplete the crop can be deleted iff clean_up is explicitly true; (R6) a failing result load propagates; (R7) every value the placeholder constructor nan_like_result can return is None or NaN in a float / object container (a dtype-preserving fill turns 'missing' into ordinary integers / True); (R8) the Reaper replays the enumeration with the settings persisted at sow time (shuffle, combos, cases), not with the reaping object's own attributes. Placeholder shapes per result kind are library semantics and not decided."),
+             "allow_incomplete the crop can be deleted iff clean_up is explicitly true; (R6) a failing result load propagates; (R9) when the Reaper asks missing_results which batches need a stand-in, missing_results looks at the result files in every call (= C08.R9; not applicable on a tree whose Reaper tests each file itself); (R7) every value the placeholder constructor nan_like_result can return is None or NaN in a float / object container (a dtype-preserving fill turns 'missing' into ordinary integers / True); (R8) the Reaper replays the enumeration with the settings persisted at sow time (shuffle, combos, cases), not with the reaping object's own attributes. Placeholder shapes per result kind are library semantics and not decided."),
     "note": "Trusted base: CPython semantics of the parsed ast; the Sower/Reaper are located by role (the method calling the crop-file writer; the closure building `(default,) * size`).",
     "technique": "static analysis: sibling cross-check of linear-form predicates (Sower vs Reaper), identity dataflow of the sentinel, CFG must-complete-before gate rule, exhaustive finite decision-table evaluation",
 }
@@ -257,6 +257,7 @@ def sentinel_rule(ctx, rid):
 
 
 def run(ctx):
+    batching.missing_fresh_rule(ctx, "C09.R9", only_if_reaper_uses=True)
     rr1, f = batching.sower_machine_rule(ctx, "C09.R0")
     rr1.title = "(prerequisite, = C07.R1) Sower state machine from which the id relation is derived"
     batching.extra_predicate_rule(ctx, "C09.R1", f, with_reaper=True)
